@@ -551,6 +551,35 @@ func genTransferTokens(repo string) (string, error) {
 		ok = false
 	}
 	fmt.Fprintf(&b, "Definition transfer_buffer_has_room : bool := %v.\n", hasRoom)
+	// connection.transfer(): notifyTransfer() (takes the write lock, waits for a write in progress) must come before
+	// transferRead() (sends the socket to the new process)
+	lockFirst, seenBoth := false, false
+	if fd := FindFunc(cf, "connection", "transfer"); fd != nil {
+		np, rp := token.NoPos, token.NoPos
+		ast.Inspect(fd.Body, func(n ast.Node) bool {
+			if c, isc := n.(*ast.CallExpr); isc {
+				switch exprString(c.Fun) {
+				case "c.notifyTransfer":
+					if np == token.NoPos {
+						np = c.Pos()
+					}
+				case "transferRead":
+					if rp == token.NoPos {
+						rp = c.Pos()
+					}
+				}
+			}
+			return true
+		})
+		if np != token.NoPos && rp != token.NoPos {
+			seenBoth = true
+			lockFirst = np < rp
+		}
+	}
+	if !seenBoth {
+		ok = false
+	}
+	fmt.Fprintf(&b, "Definition transfer_takes_write_lock_first : bool := %v.\n", lockFirst)
 
 	// handler.go GracefulStopListeners: the function literal started per listener must work on its OWN listener: a variable
 	// defined inside the loop body (al := l) or a parameter - not the range variable itself under go < 1.22 semantics
